@@ -21,7 +21,7 @@ with Python's `re`, per text.
 """
 import re
 
-from harness.core import Check, use_repo
+from harness.core import Check, canon, run_driver, use_repo
 from harness import gen_grammar as G
 from harness import peg
 from harness.txutil import outcome, with_timeout
@@ -150,6 +150,192 @@ def tok_rows(toks, text):
 
 
 # --------------------------------------------------------------------------
+# generation
+# --------------------------------------------------------------------------
+class Gen(G.GrammarGen):
+    """gen_grammar's generator, biased towards containment (assignments whose right-hand side is a rule)."""
+
+    def asgn(self, later, attrs, inrep=False):
+        e = super().asgn(later, attrs, inrep)
+        commons = [n for n in later if self.kinds.get(n) != "match"]
+        if commons and e["rhs"]["k"] != "ref" and self.rng.chance(0.6):
+            e["rhs"] = {"k": "ref", "name": self.rng.choice(commons)}
+        return e
+
+    def common_body(self, later, depth):
+        return super().common_body(later, self.rng.choice([1, 2, 2, 3]))
+
+    def match_body(self, later, depth):
+        return super().match_body(later, self.rng.choice([1, 2]) if depth > 1 else depth)
+
+
+class Deriver(G.Deriver):
+    """gen_grammar's deriver, but when the fuel is used up (recursive grammars) the derivation is finished with the
+    shortest alternatives instead of a filler token, so that derived sentences stay sentences of the grammar."""
+
+    INF = 10 ** 6
+
+    def __init__(self, g, rng):
+        super().__init__(g, rng)
+        self.min = {n: self.INF for n in self.rules}
+        for _ in range(len(self.rules) + 2):
+            for n, r in self.rules.items():
+                self.min[n] = min(self.INF, self.ml(r["body"]))
+
+    def ml(self, e):
+        k = e["k"]
+        if k in ("str", "re", "link"):
+            return 1
+        if k == "ref":
+            return self.min.get(e["name"], 1)
+        if k == "seq":
+            return sum(self.ml(x) for x in e["xs"])
+        if k == "alt":
+            return min(self.ml(x) for x in e["xs"])
+        if k == "pred":
+            return 0
+        x = e["x"] if k == "rep" else e["rhs"]
+        if e["op"] in ("?", "*", "?=", "*="):
+            return 0
+        return self.ml(x)
+
+    def d(self, e, depth):
+        k = e["k"]
+        low = self.fuel < 0 or depth > 4
+        if k == "ref" and e["name"] in self.rules:
+            self.fuel -= 1
+            if depth > 12 or (low and self.min[e["name"]] >= self.INF):
+                return ["a"]          # the rule has no finite sentence
+            return self.d(self.rules[e["name"]]["body"], depth + 1)
+        if low and k == "alt":
+            return self.d(min(e["xs"], key=self.ml), depth)
+        if low and k in ("rep", "asgn") and e["op"] in ("?", "*", "?=", "*="):
+            return []
+        if low and k in ("rep", "asgn") and e["op"] in ("+", "+="):
+            return self.d(e["x"] if k == "rep" else e["rhs"], depth)
+        return super().d(e, depth)
+
+
+def sentences(g, rng, n_derived, n_mutated):
+    d = Deriver(g, rng)
+    out = []
+    for i in range(n_derived):
+        toks = d.tokens(fuel=rng.choice([6, 15, 40]))
+        out.append(G.layout(toks, rng, g.get("comment"), style="space" if i % 2 == 0 else None))
+    for _ in range(n_mutated):
+        out.append(G.layout(G.mutate(d.tokens(fuel=15), rng), rng, g.get("comment")))
+    return [t for t in out if len(t) <= 240] or [""]
+
+
+NULLABLE_RE = {r"q?"}
+
+
+def falsy(e, fr):
+    """generator-side copy of Tx.falsy (Doc.lean); the authoritative DocFragment flag comes from the Lean driver"""
+    if e.get("sup"):
+        return True
+    k = e["k"]
+    if k == "str":
+        return e["v"] == ""
+    if k == "re":
+        return e["v"] in NULLABLE_RE
+    if k == "ref":
+        return e["name"] in fr
+    if k == "seq":
+        return all(falsy(x, fr) for x in e["xs"])
+    if k == "alt":
+        return any(falsy(x, fr) for x in e["xs"])
+    if k == "rep":
+        if e["op"] == "+":
+            return falsy(e["x"], fr)
+        if e["op"] == "#":
+            return all(falsy(x, fr) for x in e["x"]["xs"])
+        return True
+    if k == "asgn":
+        return falsy(e["rhs"], fr) if e["op"] in ("=", "+=") else True
+    return True
+
+
+def falsy_rules(g):
+    fr = set()
+    for _ in range(len(g["rules"]) + 1):
+        fr = {r["name"] for r in g["rules"] if falsy(r["body"], fr)}
+    return fr
+
+
+def make_productive(g, rng):
+    """Guard every falsy alternative / repetition body / unordered element with a literal (in place of the
+    generator's choice), so that the grammar falls into DocFragment."""
+    import copy
+
+    g = copy.deepcopy(g)
+    for _ in range(3):
+        fr = falsy_rules(g)
+
+        def guard(x):
+            if not falsy(x, fr):
+                return x
+            if x.get("sup") and x["k"] in ("str", "re", "ref"):
+                x = dict(x)
+                x.pop("sup")
+                if not falsy(x, fr):
+                    return x
+            return {"k": "seq", "xs": [G.lit(rng), x]}
+
+        def fix(e):
+            k = e["k"]
+            if k in ("seq", "alt"):
+                e["xs"] = [fix(x) for x in e["xs"]]
+                if k == "alt":
+                    e["xs"] = [guard(x) for x in e["xs"]]
+            elif k == "rep":
+                e["x"] = fix(e["x"])
+                if e["op"] in "*+":
+                    e["x"] = guard(e["x"])
+                elif e["op"] == "#":
+                    xs = []
+                    for x in e["x"]["xs"]:
+                        opt = (x["k"] == "rep" and x["op"] == "?" and not x.get("sup") and not falsy(x["x"], fr)) or \
+                              (x["k"] == "asgn" and x["op"] == "?=" and not falsy(x["rhs"], fr))
+                        xs.append(x if opt else guard(x))
+                    e["x"]["xs"] = xs
+            elif k == "asgn":
+                if e["op"] in ("+=", "*=") and falsy(e["rhs"], fr):
+                    e["rhs"] = {"k": "ref", "name": "INT"}
+            elif k == "pred":
+                e["x"] = fix(e["x"])
+            return e
+
+        for r in g["rules"]:
+            r["body"] = fix(r["body"])
+    return g
+
+
+def break_grammar(g, rng):
+    """malformed stream: one grammar-level error (TextXSemanticError / TextXSyntaxError expected)"""
+    import copy
+
+    g = copy.deepcopy(g)
+    r = rng.choice(g["rules"])
+    c = rng.choice(["unknown", "bool2", "boolrep", "optmods", "plainmods"])
+    if c == "unknown":
+        extra = {"k": "ref", "name": "Nowhere"}
+    elif c == "bool2":
+        extra = {"k": "seq", "xs": [{"k": "asgn", "attr": "zz", "op": "=", "rhs": G.lit(rng), "sep": None, "eol": False},
+                                    {"k": "asgn", "attr": "zz", "op": "?=", "rhs": G.lit(rng), "sep": None, "eol": False}]}
+    elif c == "boolrep":
+        extra = {"k": "rep", "op": "+", "x": {"k": "asgn", "attr": "zq", "op": "?=", "rhs": G.lit(rng), "sep": None, "eol": False},
+                 "sep": None, "eol": False}
+    elif c == "optmods":
+        extra = {"k": "rep", "op": "?", "x": G.lit(rng), "sep": {"k": "str", "v": ","}, "eol": False}
+    else:
+        extra = {"k": "asgn", "attr": "zp", "op": "=", "rhs": G.lit(rng), "sep": {"k": "str", "v": ","}, "eol": False}
+    r["body"] = {"k": "seq", "xs": [r["body"], extra]}
+    return g
+
+
+
+# --------------------------------------------------------------------------
 # canonical forms
 # --------------------------------------------------------------------------
 REP = ("opt", "star", "plus", "unord")
@@ -251,16 +437,20 @@ def load(mm, text):
     return o
 
 
+FIX_ORDER = ["alt", "empty", "rep", "sep", "cache", "ws", "all"]
+KF = {"alt": "C01-arpeggio-none-alternative", "empty": "C01-arpeggio-empty-list-alternative", "rep": "C01-arpeggio-falsy-repetition",
+      "sep": "C01-arpeggio-separator-kept", "cache": "C01-arpeggio-comment-cache",
+      "ws": "C01-arpeggio-ws-restore", "all": "C01-arpeggio-combined"}
+
 _MARK = re.compile("\x01([^\x02]*)\x02")
 
 
-def norm_value(v, container_id=None, root=True):
+def norm_value(v):
     """Lean `Value` JSON -> the format of dump_value (float() / str(float()) evaluated here)."""
     if isinstance(v, list):
-        return [norm_value(x, container_id, False) for x in v]
+        return [norm_value(x) for x in v]
     if "cls" in v:
-        par = (v["parent"] is None) if root else (v["parent"] == container_id)
-        return {"cls": v["cls"], "parent": par, "attrs": [[n, norm_value(x, v["id"], False)] for n, x in v["attrs"]]}
+        return {"cls": v["cls"], "parent": v["parent"], "attrs": [[n, norm_value(x)] for n, x in v["attrs"]]}
     if v["p"] == "float":
         return {"p": "float", "v": repr(float(v["src"]))}
     if v["p"] == "str":
@@ -291,7 +481,7 @@ class Prop(Check):
     LEAN_MODULE = "TextxVerif.Tx.Build"
     THEOREMS = []
     DRIVER = "Drivers/Tx.lean"
-    QUICK_CASES = 300
+    QUICK_CASES = 400
     THOROUGH_CASES = 8000
     CASE_TIMEOUT = 20
     RULE = ""
@@ -301,11 +491,17 @@ class Prop(Check):
     def gen(self, rng, n, tier):
         for i in range(n):
             r = rng.fork(i)
-            gg = G.GrammarGen(r, links=False)
+            style = r.weighted([("doc", 6), ("free", 3), ("broken", 1)])
+            gg = Gen(r, links=False, nrules=r.randint(1, 5), comment_p=0.3)
             g = gg.grammar()
+            if style == "doc":
+                g = make_productive(g, r)
             cfg = r.choice(CFGS)
-            texts = G.sentences(g, r, 3, 2)
-            yield {"gram": g, "cfg": cfg, "texts": texts}
+            texts = sentences(g, r, 6, 3)
+            keep = 4 if tier == "quick" else 6
+            if style == "broken":
+                g = break_grammar(g, r)
+            yield {"gram": g, "cfg": cfg, "texts": texts, "keep": keep, "style": style}
 
     def impl(self, case):
         use_repo()
@@ -328,7 +524,15 @@ class Prop(Check):
         except peg.Unsupported as e:
             res["unsupported"] = str(e)
             return res
-        res["loads"] = [with_timeout(lambda t=t: load(mm, t)) for t in case["texts"]]
+        allloads = [with_timeout(lambda t=t: load(mm, t)) for t in case["texts"]]
+        # input selection: of the candidate texts keep the accepted ones with most objects and some rejected ones
+        k = int(case.get("keep", len(case["texts"])))
+        acc = sorted((i for i, o in enumerate(allloads) if "ok" in o), key=lambda i: (-str(allloads[i]).count("'cls'"), i))
+        rej = [i for i, o in enumerate(allloads) if "ok" not in o]
+        na = min(len(acc), max(k - 1, k - len(rej)))
+        sel = sorted(acc[:na] + rej[-(k - na):] if k - na > 0 else acc[:na])
+        res["texts"] = [case["texts"][i] for i in sel]
+        res["loads"] = [allloads[i] for i in sel]
         return res
 
     def model_req(self, case, obs):
@@ -339,13 +543,16 @@ class Prop(Check):
         texts = []
         if "compiled" in obs:
             nn = len(obs["compiled"]["table"]["nodes"]) + 12
-            for t in case["texts"]:
+            for t in obs["texts"]:
                 rows, groups, g1 = tok_rows(toks, t)
                 texts.append({"input": t, "toks": rows, "groups": groups, "g1": g1,
                               "fuel": min(30000, 80 + 8 * (len(t) + 2) * nn)})
-        return {"op": "case", "gram": gram, "cfg": lean_cfg(case["cfg"]), "texts": texts}
+        nullable = [i for i, (k, t) in enumerate(toks)
+                    if k == "re" and (tok_regex(k, t).match("") is not None or any(0 in x["toks"][i] for x in texts))]
+        return {"op": "case", "gram": gram, "cfg": lean_cfg(case["cfg"]), "texts": texts, "nullable": nullable}
 
     def compare(self, case, obs, out):
+        self._outs[canon(case)] = out
         if "compiled" not in out:
             return f"model rejected the request: {str(out)[:200]}"
         d = self.compare_compile(case, obs, out["compiled"])
@@ -353,8 +560,8 @@ class Prop(Check):
             return d
         if out["compiled"]["ok"]["multSensitive"]:
             return None
-        for t, real, m in zip(case["texts"], obs["loads"], out["loads"]):
-            d = same_outcome(real, m)
+        for t, real, m in zip(obs["texts"], obs["loads"], out["loads"]):
+            d = same_outcome(real, m["mirror"])
             if d:
                 return f"load {t!r}: {d}"
         return None
@@ -390,12 +597,101 @@ class Prop(Check):
             return "compile: class lists differ"
         return None
 
+    _outs = {}
+
+    def lean_out(self, case, obs):
+        """Answer of the Lean driver for this case (cached by compare(); computed on demand during shrinking)."""
+        key = canon(case)
+        if key not in self._outs:
+            req = self.model_req(case, obs)
+            self._outs[key] = run_driver(self.DRIVER, [req])[0] if req is not None else None
+        return self._outs[key]
+
     def oracle(self, case, obs):
+        """The property itself: what textX does with (grammar, cfg, text) must be what the documented semantics
+        (`Tx.Sem.eval`, evaluated by the Lean driver on the grammar AST) prescribe."""
+        if "loads" not in obs:
+            return None
+        out = self.lean_out(case, obs)
+        if not out or "loads" not in out or out["compiled"]["ok"]["multSensitive"]:
+            return None
+        for t, real, m in zip(obs["texts"], obs["loads"], out["loads"]):
+            sem = m["sem"]
+            if "skip" in sem or sem.get("err") == "fuel" or m["mirror"].get("c03"):
+                continue
+            d = same_outcome(real, sem)
+            if d:
+                return f"text {t!r}: textX vs documented semantics: {d}"
         return None
 
+    def failing_texts(self, case, obs, out):
+        for t, real, m in zip(obs["texts"], obs["loads"], out["loads"]):
+            sem = m["sem"]
+            if "skip" in sem or sem.get("err") == "fuel" or m["mirror"].get("c03"):
+                continue
+            if same_outcome(real, sem):
+                yield t, real, m
+
+    def classify(self, case, obs, failure):
+        """Known findings rooted in Arpeggio: the unswitched mirror reproduces what textX did, and the mirror with
+        exactly one Arpeggio call site switched to the textbook behaviour (Tx/Quirk.lean) yields what the
+        documented semantics prescribe."""
+        if not failure.startswith("text ") or "loads" not in obs:
+            return None
+        out = self.lean_out(case, obs)
+        if not out or "loads" not in out:
+            return None
+        found = []
+        for t, real, m in self.failing_texts(case, obs, out):
+            if same_outcome(real, m["mirror"]) is not None:
+                return None
+            sem = {k: v for k, v in m["sem"].items()}
+            hit = None
+            for k in FIX_ORDER:
+                fo = dict(m.get("fixes", {}).get(k, {}))
+                fo.pop("c03", None)
+                if fo == sem:
+                    hit = k
+                    break
+            if hit is None or (out.get("doc") and hit in ("alt", "empty", "rep", "all")):
+                return None
+            found.append(hit)
+        return KF[found[0]] if found else None
+
     def nontrivial(self, case, obs):
-        return "compiled" in obs
+        """accepted with >= 2 objects, or rejected after at least one token"""
+        for t, o in zip(obs.get("texts", []), obs.get("loads", [])):
+            if ("ok" in o and str(o).count("'cls'") >= 2) or ("err" in o and t.strip()):
+                return True
+        return False
+
+    def extra_evidence(self, cases, obs, outs):
+        ev = {"grammars": len(cases), "grammar_errors": 0, "doc_fragment_grammars": 0, "mult_sensitive_skipped": 0,
+              "texts": 0, "accepted_texts": 0, "accepted_with_2plus_objects": 0, "sem_decided_texts": 0,
+              "sem_decided_texts_in_doc_fragment": 0, "c03_skipped_texts": 0, "unsupported": 0}
+        for c, o, out in zip(cases, obs, outs):
+            if "grammar_error" in o:
+                ev["grammar_errors"] += 1
+            if not out or "loads" not in out:
+                if out is None:
+                    ev["unsupported"] += 1
+                continue
+            if out["compiled"]["ok"]["multSensitive"]:
+                ev["mult_sensitive_skipped"] += 1
+                continue
+            ev["doc_fragment_grammars"] += bool(out.get("doc"))
+            for real, m in zip(o.get("loads", []), out["loads"]):
+                ev["texts"] += 1
+                if "ok" in real:
+                    ev["accepted_texts"] += 1
+                    ev["accepted_with_2plus_objects"] += str(real).count("'cls'") >= 2
+                if m["mirror"].get("c03"):
+                    ev["c03_skipped_texts"] += 1
+                elif "skip" not in m["sem"] and m["sem"].get("err") != "fuel":
+                    ev["sem_decided_texts"] += 1
+                    ev["sem_decided_texts_in_doc_fragment"] += bool(out.get("doc"))
+        return ev
 
     def sample_view(self, case, obs):
-        return {"grammar": obs.get("grammar"), "cfg": case["cfg"], "texts": case["texts"],
+        return {"grammar": obs.get("grammar"), "cfg": case["cfg"], "texts": obs.get("texts"),
                 "outcomes": [str(x)[:100] for x in obs.get("loads", [])]}
